@@ -18,6 +18,7 @@ package batchprocessor
 
 import (
 	"context"
+	"errors"
 	"fmt"
 	"runtime"
 	"sort"
@@ -265,6 +266,7 @@ type vCfg struct {
 	term    string
 	keysLow []string
 	timer   bool
+	fail    int // downstream verdicts: 0 all nil, 1 every second export fails (plain error), 2 every export fails (permanent)
 }
 
 func vGenCfg(rng *vRand, timeoutReal time.Duration, timeoutTerm int) vCfg {
@@ -502,6 +504,8 @@ func vRunCases[T any, P any](t *testing.T, out *vOut, rng *vRand, sg vSignal[T, 
 			timeoutReal, timeoutTerm = vLongTimeout, 1000
 		}
 		vc := vGenCfg(rng, timeoutReal, timeoutTerm)
+		vc.fail = rng.Pick(7, 2, 1)
+		out.Stat(fmt.Sprintf("%s.downstream_mode_%d", sg.name, vc.fail), 1)
 		if err := vc.cfg.Validate(); err != nil {
 			t.Fatalf("generator produced an invalid config: %v", err)
 		}
@@ -524,9 +528,20 @@ func vRunCases[T any, P any](t *testing.T, out *vOut, rng *vRand, sg vSignal[T, 
 
 func vRunOne[T any, P any](t *testing.T, out *vOut, sg vSignal[T, P], vc vCfg, script []vOp[P]) {
 	sink := &vSink{perTuple: map[string]int{}}
+	var calls atomic.Int32
 	bp, consume, err := sg.newProc(vc.cfg, func(ctx context.Context, d T) error {
 		ir := sg.read(d)
 		sink.add(vExport{extra: vCtxExtra(ctx, vc.keysLow), tuple: vCtxTuple(ctx, vc.keysLow), payload: sg.term(ir), items: sg.items(ir), at: time.Now()})
+		// the downstream verdict: the processor only logs a failure and drops the batch; every export CALL is
+		// recorded, so the comparison with the model checks that a failing downstream changes nothing else
+		// (no retry, no second export of the items, no effect on later batches or on Consume results)
+		n := calls.Add(1)
+		switch {
+		case vc.fail == 1 && n%2 == 0:
+			return errors.New("downstream refuses")
+		case vc.fail == 2:
+			return consumererror.NewPermanent(errors.New("downstream refuses for good"))
+		}
 		return nil
 	})
 	if err != nil {
@@ -1145,6 +1160,445 @@ func vImmediateCases[T any, P any](t *testing.T, out *vOut, rng *vRand, sg vSign
 	}
 }
 
+// ---- (7) the bounded channel: producers blocked on a full newItem channel ------------------------------------
+// The sink holds the shard's goroutine inside its first export (a gate), the harness fills the channel to its
+// capacity (cap(newItem) = runtime.NumCPU()) and starts k more producers, which must block.  Variant A opens the
+// gate and then shuts down; variant B calls Shutdown first and opens the gate afterwards (the drain loop of the
+// shutdown branch must release the blocked producers).  Every blocked Consume must return nil, Shutdown must
+// return, and at that moment everything is emitted.  With k = 1 the run is also a correspondence case for
+// coq/C17/Bounded.v (calls returned / producers blocked at the check points, and the exports).
+func vBlockedCases[T any, P any](t *testing.T, out *vOut, rng *vRand, sg vSignal[T, P], n int) {
+	for c := 0; c < n; c++ {
+		if vStuckN.Load() >= 5 {
+			continue
+		}
+		size := rng.Intn(6)
+		max := 0
+		if rng.Bool() {
+			max = size + 1 + rng.Intn(4)
+		}
+		keyed := rng.Intn(3) == 0
+		cfg := &Config{Timeout: 0, SendBatchSize: uint32(size), SendBatchMaxSize: uint32(max)}
+		var keysLow []string
+		cfgTerm := fmt.Sprintf("(HC 0 false %d %d [] 0)", size, max)
+		md := map[string][]string{}
+		mdTerm := "[]"
+		if keyed {
+			cfg.MetadataKeys = []string{"K1"}
+			keysLow = []string{"k1"}
+			cfgTerm = fmt.Sprintf("(HC 0 false %d %d [%s] 0)", size, max, vStr("K1"))
+			md = map[string][]string{"k1": {"a", "b"}}
+			mdTerm = "[(" + vStr("k1") + ",[1;2])]"
+		}
+		k := 1
+		if c%3 == 2 {
+			k = 2 + rng.Intn(3)
+		}
+		variantB := rng.Bool()
+		g := &vGen{r: rng}
+		gate := make(chan struct{})
+		var entered atomic.Bool
+		sink := &vSink{perTuple: map[string]int{}}
+		bp, consume, err := sg.newProc(cfg, func(ctx context.Context, d T) error {
+			if !entered.Swap(true) {
+				<-gate // the shard's goroutine is held inside its first export
+			}
+			ir := sg.read(d)
+			sink.add(vExport{tuple: vCtxTuple(ctx, keysLow), payload: sg.term(ir), items: sg.items(ir), at: time.Now()})
+			return nil
+		})
+		if err != nil {
+			t.Fatal(err)
+		}
+		_ = bp.Start(context.Background(), componenttest.NewNopHost())
+		ctx := client.NewContext(context.Background(), client.Info{Metadata: client.NewMetadata(md)})
+		tp := vTupleOf(md, keysLow)
+		var ops, want []string
+		var returned atomic.Int32
+		send := func(p P) { // a Consume call expected to return at once
+			ops = append(ops, "(BoC "+mdTerm+" "+sg.term(p)+")")
+			for _, it := range sg.items(p) {
+				want = append(want, tp+"|"+it)
+			}
+			if err := consume(ctx, sg.build(p)); err == nil {
+				returned.Add(1)
+			}
+		}
+		term0 := "(CValidate " + cfgTerm + " 0)%N"
+		send(sg.mk(g, 1+rng.Intn(3)))
+		ops = append(ops, "(BoR 0)")
+		if !vWait(func() bool { return entered.Load() }, vDL(20*time.Second)) {
+			vStuck()
+			out.Oracle("stuck", term0, "the shard did not export the first payload within 20 s")
+			close(gate)
+			continue
+		}
+		sh := vShards(bp)[0]
+		capN := cap(sh.newItem)
+		for i := 0; i < capN; i++ {
+			p := sg.gen(g)
+			if rng.Intn(3) == 0 {
+				p = sg.mk(g, rng.Intn(3))
+			}
+			send(p)
+		}
+		var wg sync.WaitGroup
+		for i := 0; i < k; i++ {
+			p := sg.mk(g, 1+rng.Intn(4))
+			ops = append(ops, "(BoC "+mdTerm+" "+sg.term(p)+")")
+			for _, it := range sg.items(p) {
+				want = append(want, tp+"|"+it)
+			}
+			d := sg.build(p)
+			wg.Add(1)
+			go func() {
+				defer wg.Done()
+				if err := consume(ctx, d); err == nil {
+					returned.Add(1)
+				}
+			}()
+			time.Sleep(2 * time.Millisecond)
+		}
+		time.Sleep(20 * time.Millisecond)
+		var checks []string
+		check := func() {
+			r := int(returned.Load())
+			checks = append(checks, fmt.Sprintf("(%d,%d)", r, 1+capN+k-r))
+			ops = append(ops, "BoCheck")
+		}
+		check() // 1 + cap calls have returned, k producers are blocked
+		if int(returned.Load()) != 1+capN {
+			out.Oracle("blocked-producer", term0, fmt.Sprintf("%d Consume calls returned while the shard was held with a full channel of capacity %d (expected %d)", returned.Load(), capN, 1+capN))
+		}
+		sdone := make(chan struct{})
+		var snap []vExport
+		shutdown := func() {
+			_ = bp.Shutdown(context.Background())
+			sink.mu.Lock()
+			snap = append([]vExport{}, sink.exports...)
+			sink.mu.Unlock()
+			close(sdone)
+		}
+		pdone := make(chan struct{})
+		go func() { wg.Wait(); close(pdone) }()
+		ok := true
+		if variantB {
+			go shutdown()
+			time.Sleep(5 * time.Millisecond)
+			close(gate)
+		} else {
+			close(gate)
+		}
+		select {
+		case <-pdone:
+		case <-time.After(vDL(20 * time.Second)):
+			vStuck()
+			ok = false
+			out.Oracle("blocked-producer", term0, fmt.Sprintf("%d producer(s) blocked on the full channel of a LIVE shard were not released within 20 s (variant B: %v)", 1+capN+k-int(returned.Load()), variantB))
+		}
+		if !variantB {
+			ops = append(ops, "(BoR 0)")
+			check()
+			go shutdown()
+		}
+		ops = append(ops, "(BoS 0)")
+		select {
+		case <-sdone:
+		case <-time.After(vDL(30 * time.Second)):
+			vStuck()
+			ok = false
+			out.Oracle("stuck", term0, "Shutdown did not return within 30 s after producers had been blocked")
+		}
+		if !ok {
+			continue
+		}
+		if variantB {
+			check()
+		}
+		var got, reqs, results []string
+		for _, e := range snap {
+			reqs = append(reqs, e.payload)
+			for _, it := range e.items {
+				got = append(got, e.tuple+"|"+it)
+			}
+			if max > 0 && len(e.items) > max {
+				out.Oracle("max-size", term0, fmt.Sprintf("blocked-producer run: batch of %d items, max %d", len(e.items), max))
+			}
+		}
+		for i := 0; i < int(returned.Load()); i++ {
+			results = append(results, "0")
+		}
+		gs := "[]"
+		if len(reqs) > 0 {
+			gs = "[(" + tp + "," + vList(reqs) + ")]"
+		}
+		obs := "(" + vList(checks) + ",(" + vList(results) + "," + gs + "))"
+		term := term0
+		if k == 1 {
+			if sg.sig == 2 {
+				term = fmt.Sprintf("(CBounded4 %s %d %s %s)%%N", cfgTerm, capN, vList(ops), obs)
+			} else {
+				term = fmt.Sprintf("(CBounded3 %d %s %d %s %s)%%N", sg.sig, cfgTerm, capN, vList(ops), obs)
+			}
+			out.Case(true, term)
+		}
+		sort.Strings(got)
+		sort.Strings(want)
+		if !vEqStrings(got, want) {
+			out.Oracle("conservation", term, fmt.Sprintf("blocked-producer run (k=%d, variant B: %v) at the moment Shutdown returned: %s", k, variantB, vDiff(got, want)))
+		}
+		out.Stat(sg.name+".blocked_runs", 1)
+		out.Stat(fmt.Sprintf("%s.blocked_producers_%d", sg.name, k), 1)
+		if variantB {
+			out.Stat(sg.name+".blocked_runs_shutdown_first", 1)
+		}
+	}
+}
+
+// ---- (8) Consume after and concurrent with Shutdown (outside the property; the model's account is checked) ------
+// after: a payload for an existing group (or the single shard) is accepted (nil) and never emitted — compared with
+// the model (script op SShutdown); a payload of a NEW group after Shutdown may or may not be emitted (the new shard
+// sees the closed shutdown channel): only "nothing twice, nothing invented" is checked.
+// concurrent: producers keep calling while Shutdown runs; afterwards the harness empties the shards' channels:
+// emitted + left in channels = accepted (theorem bp_shutdown_accounting on the implementation).
+func vAfterShutdownCases[T any, P any](t *testing.T, out *vOut, rng *vRand, sg vSignal[T, P], n int) {
+	for c := 0; c < n; c++ {
+		if vStuckN.Load() >= 5 {
+			continue
+		}
+		timeoutReal, timeoutTerm := time.Duration(0), 0
+		if rng.Bool() {
+			timeoutReal, timeoutTerm = vLongTimeout, 1000
+		}
+		vc := vGenCfg(rng, timeoutReal, timeoutTerm)
+		vc.cfg.MetadataCardinalityLimit = 0
+		vc.term = strings.TrimSuffix(vc.term[:strings.LastIndex(vc.term, " ")], " ") + " 0)"
+		g := &vGen{r: rng}
+		fam := rng.Intn(len(vValFamilies))
+		sink := &vSink{perTuple: map[string]int{}}
+		bp, consume, err := sg.newProc(vc.cfg, func(ctx context.Context, d T) error {
+			ir := sg.read(d)
+			sink.add(vExport{tuple: vCtxTuple(ctx, vc.keysLow), payload: sg.term(ir), items: sg.items(ir), at: time.Now()})
+			return nil
+		})
+		if err != nil {
+			t.Fatal(err)
+		}
+		_ = bp.Start(context.Background(), componenttest.NewNopHost())
+		var stTerms, results, known, acceptedTagged []string
+		type mdv struct {
+			md   map[string][]string
+			term string
+		}
+		var seen []mdv
+		term0 := "(CValidate " + vc.term + " 0)%N"
+		do := func(md map[string][]string, mdTerm string, after bool) bool {
+			p := sg.gen(g)
+			ctx := client.NewContext(context.Background(), client.Info{Metadata: client.NewMetadata(md)})
+			cdone := make(chan error, 1)
+			go func(d T) { cdone <- consume(ctx, d) }(sg.build(p))
+			select {
+			case err := <-cdone:
+				if err != nil {
+					out.Oracle("cardinality", term0, "Consume refused without a cardinality limit: "+err.Error())
+					return false
+				}
+			case <-time.After(vDL(20 * time.Second)):
+				vStuck()
+				out.Oracle("stuck", term0, fmt.Sprintf("Consume (after shutdown: %v) did not return within 20 s", after))
+				return false
+			}
+			stTerms = append(stTerms, "(SConsume "+mdTerm+" "+sg.term(p)+")")
+			results = append(results, "0")
+			if !after {
+				tp := vTupleOf(md, vc.keysLow)
+				for _, it := range sg.items(p) {
+					acceptedTagged = append(acceptedTagged, tp+"|"+it)
+				}
+			}
+			return true
+		}
+		okRun := true
+		for i := 0; i < 1+rng.Intn(4) && okRun; i++ {
+			md, mdTerm := vGenMD(rng, fam)
+			tp := vTupleOf(md, vc.keysLow)
+			isKnown := false
+			for _, k := range known {
+				isKnown = isKnown || k == tp
+			}
+			if !isKnown {
+				known = append(known, tp)
+				seen = append(seen, mdv{md, mdTerm})
+			}
+			okRun = do(md, mdTerm, false)
+		}
+		if !okRun {
+			continue
+		}
+		sd := make(chan struct{})
+		go func() { _ = bp.Shutdown(context.Background()); close(sd) }()
+		select {
+		case <-sd:
+		case <-time.After(vDL(30 * time.Second)):
+			vStuck()
+			out.Oracle("stuck", term0, "Shutdown did not return within 30 s")
+			continue
+		}
+		stTerms = append(stTerms, "SShutdown")
+		before := sink.totalCount()
+		for i := 0; i < 1+rng.Intn(3) && okRun; i++ { // existing groups only: deterministic
+			m := seen[rng.Intn(len(seen))]
+			okRun = do(m.md, m.term, true)
+		}
+		if !okRun {
+			continue
+		}
+		time.Sleep(10 * time.Millisecond)
+		sink.mu.Lock()
+		exports := append([]vExport{}, sink.exports...)
+		sink.mu.Unlock()
+		var order, emittedTagged []string
+		groups := map[string][]string{}
+		for _, e := range exports {
+			if _, ok := groups[e.tuple]; !ok {
+				order = append(order, e.tuple)
+			}
+			groups[e.tuple] = append(groups[e.tuple], e.payload)
+			for _, it := range e.items {
+				emittedTagged = append(emittedTagged, e.tuple+"|"+it)
+			}
+		}
+		var gs []string
+		for _, tp := range order {
+			gs = append(gs, "("+tp+","+vList(groups[tp])+")")
+		}
+		term := sg.runCase(vc.term, vList(stTerms), "("+vList(results)+","+vList(gs)+")")
+		out.Case(true, term)
+		out.Stat(sg.name+".after_shutdown_runs", 1)
+		if sink.totalCount() != before {
+			out.Oracle("after-shutdown", term, fmt.Sprintf("%d items were emitted after Shutdown had returned", sink.totalCount()-before))
+		}
+		sort.Strings(emittedTagged)
+		sort.Strings(acceptedTagged)
+		if !vEqStrings(emittedTagged, acceptedTagged) {
+			out.Oracle("conservation", term, "run with Consume calls after Shutdown: "+vDiff(emittedTagged, acceptedTagged))
+		}
+	}
+}
+
+func vConcurrentShutdownCases[T any, P any](t *testing.T, out *vOut, rng *vRand, sg vSignal[T, P], n int) {
+	for c := 0; c < n; c++ {
+		if vStuckN.Load() >= 5 {
+			continue
+		}
+		timeoutReal := time.Duration(0)
+		if rng.Bool() {
+			timeoutReal = time.Duration(1+rng.Intn(5)) * time.Millisecond
+		}
+		vc := vGenCfg(rng, timeoutReal, 1)
+		fam := rng.Intn(len(vValFamilies))
+		sink := &vSink{perTuple: map[string]int{}}
+		bp, consume, err := sg.newProc(vc.cfg, func(ctx context.Context, d T) error {
+			ir := sg.read(d)
+			sink.add(vExport{tuple: vCtxTuple(ctx, vc.keysLow), items: sg.items(ir), at: time.Now()})
+			return nil
+		})
+		if err != nil {
+			t.Fatal(err)
+		}
+		_ = bp.Start(context.Background(), componenttest.NewNopHost())
+		producers := runtime.NumCPU() / 2 // fewer calls in flight than a channel has room for: nobody blocks for ever
+		if producers > 8 {
+			producers = 8
+		}
+		if producers < 1 {
+			producers = 1
+		}
+		var stop atomic.Bool
+		var mu sync.Mutex
+		var acceptedTagged []string
+		var wg sync.WaitGroup
+		for pr := 0; pr < producers; pr++ {
+			type one struct {
+				md     map[string][]string
+				d      T
+				tagged []string
+			}
+			g := &vGen{r: rng, next: uint64(pr) * 100000}
+			var work []one
+			for i := 0; i < 40; i++ {
+				md, _ := vGenMD(rng, fam)
+				p := sg.gen(g)
+				work = append(work, one{md, sg.build(p), sg.items(p)})
+			}
+			wg.Add(1)
+			go func() {
+				defer wg.Done()
+				for _, w := range work {
+					if stop.Load() {
+						return
+					}
+					ctx := client.NewContext(context.Background(), client.Info{Metadata: client.NewMetadata(w.md)})
+					if err := consume(ctx, w.d); err != nil {
+						continue
+					}
+					tp := vTupleOf(w.md, vc.keysLow)
+					mu.Lock()
+					for _, it := range w.tagged {
+						acceptedTagged = append(acceptedTagged, tp+"|"+it)
+					}
+					mu.Unlock()
+				}
+			}()
+		}
+		time.Sleep(time.Duration(rng.Intn(400)) * time.Microsecond)
+		stop.Store(true)
+		term := "(CValidate " + vc.term + " 0)%N"
+		fin := make(chan struct{})
+		go func() { _ = bp.Shutdown(context.Background()); wg.Wait(); close(fin) }()
+		select {
+		case <-fin:
+		case <-time.After(vDL(30 * time.Second)):
+			vStuck()
+			out.Oracle("stuck", term, "Shutdown with producers still calling: Shutdown or a producer did not return within 30 s")
+			continue
+		}
+		time.Sleep(5 * time.Millisecond) // shards created after the shutdown notice their start-up
+		var all []string
+		left := 0
+		for _, sh := range vShards(bp) {
+			tp := vCtxTuple(sh.exportCtx, vc.keysLow)
+		DRAIN:
+			for {
+				select {
+				case d := <-sh.newItem:
+					for _, it := range sg.items(sg.read(d)) {
+						all = append(all, tp+"|"+it)
+						left++
+					}
+				default:
+					break DRAIN
+				}
+			}
+		}
+		sink.mu.Lock()
+		for _, e := range sink.exports {
+			for _, it := range e.items {
+				all = append(all, e.tuple+"|"+it)
+			}
+		}
+		sink.mu.Unlock()
+		sort.Strings(all)
+		sort.Strings(acceptedTagged)
+		if !vEqStrings(all, acceptedTagged) {
+			out.Oracle("shutdown-accounting", term, "Shutdown with producers still calling: emitted + left in the channels differs from accepted: "+vDiff(all, acceptedTagged))
+		}
+		out.Stat(sg.name+".concurrent_shutdown_runs", 1)
+		out.Stat(sg.name+".concurrent_shutdown_items_left_in_channels", left)
+		out.Stat(sg.name+".concurrent_shutdown_items_accepted", len(acceptedTagged))
+	}
+}
+
 func TestVerifC17(t *testing.T) {
 	out := vOpen()
 	defer out.Close()
@@ -1167,6 +1621,18 @@ func TestVerifC17(t *testing.T) {
 	vImmediateCases(t, out, vNewRand(1751), lg, vBudget(40, 10))
 	vImmediateCases(t, out, vNewRand(1752), tr, vBudget(40, 10))
 	vImmediateCases(t, out, vNewRand(1753), mt, vBudget(40, 10))
+
+	vBlockedCases(t, out, vNewRand(1761), lg, vBudget(6, 6))
+	vBlockedCases(t, out, vNewRand(1762), tr, vBudget(6, 6))
+	vBlockedCases(t, out, vNewRand(1763), mt, vBudget(6, 6))
+
+	vAfterShutdownCases(t, out, vNewRand(1771), lg, vBudget(15, 6))
+	vAfterShutdownCases(t, out, vNewRand(1772), tr, vBudget(15, 6))
+	vAfterShutdownCases(t, out, vNewRand(1773), mt, vBudget(15, 6))
+
+	vConcurrentShutdownCases(t, out, vNewRand(1781), lg, vBudget(8, 10))
+	vConcurrentShutdownCases(t, out, vNewRand(1782), tr, vBudget(8, 10))
+	vConcurrentShutdownCases(t, out, vNewRand(1783), mt, vBudget(8, 10))
 
 	vConcurrentCases(t, out, vNewRand(1741), lg, vBudget(6, 20))
 	vConcurrentCases(t, out, vNewRand(1742), tr, vBudget(6, 20))
